@@ -320,6 +320,25 @@ def reopen (cw : Perm → Bool) (keep : Bool) (l : Log) (t : TreeSt) : Bool :=
   | .ok () => true
   | .error _ => false
 
+/-! ## the local path (`AddContent`) -/
+
+/-- `AddContentWithValidator` (unencrypted, no snapshot): `prepareBuilderContent` refuses a key whose
+CURRENT permission cannot write; the change is built over all heads, citing the list's head record,
+signed with the key, validated like a received one, attached and persisted. `id` is the content id
+the real builder produced. -/
+def addContent (cw : Perm → Bool) (keep : Bool) (l : Log) (t : TreeSt) (id : Id) (a : Acc) :
+    Outcome × List Id × TreeSt :=
+  if !cw (permAfter l a) then (.err .noPerm, [], t) else
+  match l.getLast? with
+  | none => (.err .noRecord, [], t)
+  | some hd =>
+    let c : Change := ⟨id, false, a, hd.id, t.heads, t.rootId, false⟩
+    match validateChange cw keep l t.attached t.rootId c with
+    | .error e => (.err e, [], t)
+    | .ok () =>
+      (.ok, [id], { t with attached := t.attached ++ [c], heads := [id],
+                           stored := t.stored ++ [id], storedHeads := [id] })
+
 /-! ## whole-tree validation (`ValidateRawTreeDefault`) -/
 
 /-- `Unmarshall(raw, verify = false)` — how a change is read back from (deferred) storage -/
